@@ -339,6 +339,56 @@ def install(ctx):
 
     _hooks.append(core.Hook(P.PerformedPart, "note_array", post=na_post, ctx=ctx, label="PerformedPart.note_array"))
 
+    # ---- utils.music.remove_silence_from_performed_part -----------------------------
+    # (load_performance(first_note_at_zero=True) shifts a part with it; the tick fields the
+    # importers gave the notes have to follow the seconds, or note_array contradicts itself)
+    import partitura.utils.music as MU
+
+    def on_grid(n, ppq, mpq):
+        """The note's given ticks are exactly its seconds (no rounding involved)."""
+        out = []
+        for sec_f, tick_f in (("note_on", "note_on_tick"), ("note_off", "note_off_tick")):
+            t = n.get(tick_f, None)
+            if t is None:
+                return None
+            x = PM.exact_ticks(n[sec_f], ppq, mpq)
+            if abs(x - int(t)) > PM.Fraction(1, 10**6) + abs(x) * PM.Fraction(1, 10**9):
+                return None
+            out.append(int(t))
+        return out
+
+    def rs_pre(pp):
+        return [(on_grid(n, pp.ppq, pp.mpq), n["note_on"], n["note_off"], n["sound_off"]) for n in pp.notes]
+
+    def rs_post(ret, exc, tok, a, k):
+        if exc is not None or tok is None:
+            return
+        pp = a[0]
+        c = core.CURRENT
+        if len(tok) != len(pp.notes) or not tok:
+            return
+        start = min(F(t[1]) for t in tok)
+        for i, (n, (grid, on, off, so)) in enumerate(zip(pp.notes, tok)):
+            c.check(3)
+            det = {"note_index": i, "before": {"note_on": _num(on), "note_off": _num(off), "sound_off": _num(so), "ticks": grid},
+                   "after": {f: _num(n[f]) for f in ("note_on", "note_off", "sound_off", "note_on_tick", "note_off_tick")},
+                   "ppq": _num(pp.ppq), "mpq": _num(pp.mpq)}
+            for f, old in (("note_on", on), ("note_off", off), ("sound_off", so)):
+                want = max(F(old) - start, 0)
+                if abs(F(n[f]) - want) > Fraction_tol(F(old)):
+                    finding("remove_silence-shifted-" + f + "-wrongly", f"note {i}: {f} {old} -> {n[f]}, silence {float(start)}s", det)
+            if grid is None:
+                continue
+            after = on_grid(n, pp.ppq, pp.mpq)
+            if after is None:
+                finding("remove_silence-leaves-tick-fields-behind",
+                        f"note {i}: ticks {grid} were exactly its seconds ({on}, {off}) before the shift by {float(start)}s; afterwards "
+                        f"note_on {n['note_on']} / note_off {n['note_off']} carry ticks {n['note_on_tick']} / {n['note_off_tick']}", det)
+                return
+
+    _hooks.append(core.Hook(MU, "remove_silence_from_performed_part", pre=rs_pre, post=rs_post, ctx=ctx,
+                            label="remove_silence_from_performed_part"))
+
     # ---- PerformedPart.from_note_array (classmethod) ------------------------------
     real_cm = P.PerformedPart.__dict__["from_note_array"]
     real_fna = real_cm.__func__
@@ -449,7 +499,7 @@ def setup(ctx):
 
 # ------------------------------------------------------------------ driver
 def plain_case(case):
-    return {k: case[k] for k in ("notes", "controls", "thresholds", "ppq", "mpq", "dress", "late_controls", "late_notes") if case.get(k) is not None}
+    return {k: case[k] for k in ("notes", "controls", "thresholds", "ppq", "mpq", "dress", "late_controls", "late_notes", "given_ticks") if case.get(k) is not None}
 
 
 def run_scenario(ctx, case, record):
@@ -559,6 +609,33 @@ def _scenario(ctx, case, record, P):
                         found.append({"key": "roundtrip-onset-changed", "what": f"note {i}: {o['note_on']} -> {r['note_on']}", "detail": det})
                     if abs(F(o["sound_off"]) - F(r["sound_off"])) > Fraction_tol(F(o["sound_off"])):
                         found.append({"key": "roundtrip-sounding-end-changed", "what": f"note {i}: {o['sound_off']} -> {r['sound_off']}", "detail": det})
+    # ticks as an importer gives them (only when every time lies exactly on the tick grid), then the
+    # leading silence is removed: seconds and ticks have to move together
+    if case.get("given_ticks"):
+        import partitura.utils.music as MU
+        grid = []
+        for n in pp.notes:
+            xa, xb = PM.exact_ticks(n["note_on"], pp.ppq, pp.mpq), PM.exact_ticks(n["note_off"], pp.ppq, pp.mpq)
+            ra, rb_ = round(xa), round(xb)
+            if abs(xa - ra) > PM.Fraction(1, 10**7) or abs(xb - rb_) > PM.Fraction(1, 10**7):
+                grid = None
+                break
+            grid.append((ra, rb_))
+        if grid:
+            for n, (ra, rb_) in zip(pp.notes, grid):
+                n["note_on_tick"] = ra
+                n["note_off_tick"] = rb_
+            for c_ in pp.controls:          # remove_silence groups controls by track and channel (as the MIDI importer supplies them)
+                c_.setdefault("track", 0)
+                c_.setdefault("channel", 0)
+            ok, _ = _call(ctx, found, pp.note_array)
+            ok, _ = _call(ctx, found, MU.remove_silence_from_performed_part, pp) if ok else (False, None)
+            if ok:
+                _call(ctx, found, pp.note_array)
+                if record:
+                    ctx.extra["silence_removed_with_given_ticks"] += 1
+                    if min(g[0] for g in grid) > 0:
+                        ctx.extra["silence_removed_with_given_ticks_and_leading_silence"] += 1
     # late edit of the control stream, then assignment: every note recomputed from the stream as it is now
     late = case.get("late_controls")
     if late:
@@ -668,6 +745,8 @@ def run_item(ctx, item):
                     a = float(src["note_off"]) + rng.choice([0.5, 1.0, 2.5])
                     case["late_notes"] = [{"id": "late", "midi_pitch": src["midi_pitch"], "note_on": a, "note_off": a + rng.choice([0.0, 0.75]),
                                            "velocity": 64, "track": 0, "channel": 0}]
+            if rng.random() < 0.3 and case["notes"] and not case.get("late_controls"):
+                case["given_ticks"] = True
             found = run_scenario(ctx, case, True)
             if found:
                 report(ctx, case, found)
@@ -828,6 +907,15 @@ def run_fixture(ctx, rel, P):
                         or abs(F(o["sound_off"]) - F(r["sound_off"])) > Fraction_tol(F(o["sound_off"])):
                     ctx.violation("roundtrip-note-changed", f"{rel} part {pi} note {i}", {"fixture": rel, "part": pi, "note_index": i})
                     break
+        # the leading silence removed (what load_performance(first_note_at_zero=True) does)
+        import partitura.utils.music as MU
+        if pp.notes:
+            for c_ in pp.controls:          # match files give controls without track and channel
+                c_.setdefault("track", 0)
+                c_.setdefault("channel", 0)
+            ok, _ = _call(ctx, found, MU.remove_silence_from_performed_part, pp)
+            if ok:
+                _call(ctx, found, pp.note_array)
     for f in found:
         ctx.violation(f["key"], f["what"], {"fixture": rel, "detail": f["detail"]})
     ST["where"] = None
